@@ -62,6 +62,10 @@ func TestProp_Generate(t *testing.T) {
 		if native {
 			w.NodeID.Native = true
 		}
+		if w.NodeID != nil && !native {
+			// some back ends answer a lookup without records with an empty set, not an error
+			w.NodeID.EmptyOnMiss = rapid.Bool().Draw(t, "emptySetOnMiss")
+		}
 
 		// actors: r0..r3 may be registered under node ID N1, o under N2, u unregistered
 		names := []string{"r0", "r1", "r2", "r3", "o", "u"}
